@@ -142,7 +142,9 @@ class TypedTuple(ABC):
             atype = kwargs['atype']
             aval = kwargs['aval']
         elif 'fromstring' in kwargs:
-            atype, aval = kwargs['fromstring'].strip().split(self.LABEL_SEPARATOR, 1)
+            # blanks around the type are tolerated, the value is kept as written (as parse_from_string does)
+            atype, aval = kwargs['fromstring'].split(self.LABEL_SEPARATOR, 1)
+            atype = atype.strip()
 
         if self.lv.validate_type(self.category, atype):
             self.type = atype
